@@ -1,6 +1,6 @@
 (* C02: generated deserializers decode every byte string as the specification prescribes.
    Statements only; proofs in Spec/WireThm*.v, Codec/Refine.v and Codec/RefineDes*.v. *)
-From Verif Require Import Wire WireThm WireThmRt WireThmExt WireThmValid Walker Refine RefineDesBase PrimsOn RefineDes WalkerBound InstancesC InstancesCpp InstancesPy InstancesTyped BulkArrays BulkArraysDes WireThmErr WalkerOpt WalkerOptThm InstancesOpt CppWalker CppWalkerThm CppWalkerInst PyDesWalker PyDesWalkerThm PyDesWalkerInst WalkerXDes RefineDesX.
+From Verif Require Import Wire WireThm WireThmRt WireThmExt WireThmValid Walker Refine RefineDesBase PrimsOn RefineDes WalkerBound InstancesC InstancesCpp InstancesPy InstancesTyped BulkArrays BulkArraysDes WireThmErr WalkerOpt WalkerOptThm InstancesOpt CppWalker CppWalkerThm CppWalkerInst PyDesWalker PyDesWalkerThm PyDesWalkerInst WalkerXDes RefineDesX WalkerXBound InstancesXDes CppWalkerConsumed.
 Local Open Scope nat_scope.
 
 (* the reported number of consumed bytes never exceeds the number supplied *)
@@ -233,9 +233,9 @@ Proof. reflexivity. Qed.
 (* (D) THE BULK ARRAY PATH AS PART OF THE ROUTINE (Codec/WalkerXDes.v, RefineDesX.v): `walk_des_x` reads every array whose element
        type satisfies `WalkerSafe.bulk` (bool, or the TRANSLATED `is_zero_cost_primitive`) by ONE nunavutGetBits call (`getl`: the
        n*w bits at the cursor, zero-extended past the capacity) and takes the elements from the object; it decodes exactly as the
-       specification prescribes, from the read law plus the GetBits law.  (For the C function the content of that law is
-       c02_c_bulk_des_elements; the instance of this routine-level theorem with CPrims.get_bits additionally needs the cursor
-       bound of WalkerBound.v for `wd_body_x`, which is not yet transferred.) *)
+       specification prescribes, from the read law plus the GetBits law; `c02_c_walk_des_x_refines` is the instance with the shipped
+       C functions (CPrims.get_bits into a zeroed object; the `size_t offset_bits` side condition is discharged by the cursor bound
+       of Codec/WalkerXBound.v for `wd_body_x`). *)
 Theorem c02_walker_x_des_refines_from_laws : forall P getl cf (Wd : nat -> Prop) t bits,
   (forall w, 1 <= w <= 64 -> Wd w) -> get_law P Wd bits ->
   (forall cap off m, cap <= length bits -> cap mod 8 = 0 -> getl bits cap off m = take_ze m (skipn off (firstn cap bits))) ->
@@ -243,6 +243,31 @@ Theorem c02_walker_x_des_refines_from_laws : forall P getl cf (Wd : nat -> Prop)
   walk_des_x P getl cf t bits = des_spec t bits.
 Proof. exact walk_des_x_refines_on. Qed.
 Print Assumptions c02_walker_x_des_refines_from_laws.
+
+Theorem c02_c_walk_des_x_refines : forall (little : bool) t bits, wf_ty t = true -> length bits mod 8 = 0 ->
+  (N.of_nat (length bits + tsz t + 8) < CPrims.two64)%N ->
+  walk_des_x (c_prims little) c_getl (WalkerSafe.std_cfg little) t bits = des_spec t bits.
+Proof. exact c_walk_des_x_refines. Qed.
+Print Assumptions c02_c_walk_des_x_refines.
+
+Theorem c02_c_walk_des_x_equals_walk_des : forall (little : bool) t bits, wf_ty t = true -> length bits mod 8 = 0 ->
+  (N.of_nat (length bits + tsz t + 8) < CPrims.two64)%N ->
+  walk_des_x (c_prims little) c_getl (WalkerSafe.std_cfg little) t bits = walk_des (c_prims little) t bits.
+Proof. exact c_walk_des_x_equals_walk_des. Qed.
+Print Assumptions c02_c_walk_des_x_equals_walk_des.
+
+(* consumed <= supplied for the cursor-returning C++-shaped model (audit C02 #4): the generated routine itself returns
+   min(offset, capacity_bits) / 8, so the bound holds for ANY behaviour of the bitspan members; and when the specification's cursor
+   stays inside the data the routine reports exactly that cursor *)
+Theorem c02_cpp_shaped_consumed_le : forall Q t bits v c, cpp_walk_des Q t bits = Ok (v, c) -> 8 * c <= length bits.
+Proof. exact cpp_walk_des_consumed_le. Qed.
+Print Assumptions c02_cpp_shaped_consumed_le.
+
+Theorem c02_cpp_shaped_consumed_exact : forall Q (Wd : nat -> Prop) t bits v k,
+  (forall w, 1 <= w <= 64 -> Wd w) -> cget_law Q Wd bits -> wf_ty t = true -> length bits mod 8 = 0 ->
+  dec_body t bits = Ok (v, k) -> k <= length bits -> cpp_walk_des Q t bits = Ok (v, k / 8).
+Proof. exact cpp_walk_des_consumed_exact. Qed.
+Print Assumptions c02_cpp_shaped_consumed_exact.
 
 (* (E) TARGET-SHAPED deserialization walkers (audit C02 #3, C01 #4) instead of the C walker run over foreign primitives.
    C++ (Codec/CppWalker.v, lang/cpp/templates/deserialization.j2: reads always through getU*/getI*/getBit/getF*, `align_offset_to<8>`,
